@@ -22,5 +22,9 @@ def run(rec):
         validate_translator(rec, catalogue.build(netname, sd), desc=catalogue.describe(netname, sd))
     for netname, sd in pairs:
         check_euler_step(rec, netname, sd)
+    # the cell volume as a solver variable too (grids; V = h^3): volume exponents of every reaction order
+    for netname, sd in [("AB_rev", ("grid", 2, 1, 1, 0)), ("order3_repeat", ("grid", 1, 2, 1, 2)), ("dimer_source", ("grid", 2, 1, 1, 1))] + \
+            ([("order4", ("grid", 2, 1, 1, 0)), ("ABC_bi", ("grid", 2, 2, 1, 4))] if tier != "quick" else []):
+        check_euler_step(rec, netname, sd, label="euler step = law (symbolic cell volume)", sym_vol=True)
     from . import C01_py
     C01_py.run(rec)
